@@ -47,6 +47,11 @@
 //! with receive checksum verification off, so that a wrong expansion cannot hide behind the
 //! transport checksum; destinations denoting a foreign address are judged by R1.
 //!
+//! Routing table x AnyIP: besides the default route via a foreign gateway the worlds are built with
+//! no routes, a default route via OUR OWN address, specific prefixes covering the foreign unicast
+//! destinations via our own address, and the same expired; each with AnyIP off and on. With AnyIP
+//! off no routing table may make a foreign unicast destination "ours" (R1).
+//!
 //! Lenient readings (the statement leaves room; the oracle demands no more than is written):
 //!  * an 802.15.4 data frame without any destination addressing is, per IEEE 802.15.4, for the
 //!    coordinator of its SOURCE PAN: with a foreign source PAN it is "for another PAN" (R1); with
@@ -72,6 +77,10 @@
 //!    `observations.error_or_rst_for_ll_bcast_ip_unicast`).
 //!  * R3 non-unicast source = {unspecified, broadcast, multicast} exactly as listed; loopback
 //!    and the interface's own address as source are executed but not judged by R3.
+//!  * AnyIP on: foreign unicast destinations / ARP targets are not judged by R1 (the statement
+//!    does not define AnyIP; documented: accepted when routed via an own address; this tree
+//!    accepts every address). Counted under `observations.any_ip_*`. For the same reason R5 does
+//!    not judge TCP to a loopback destination while AnyIP is on.
 //!  * raw sockets are outside "TCP, UDP, ICMP or DNS socket": what they receive is never judged.
 //!  * The property quantifies over valid packets of supported protocols: unknown IP protocols,
 //!    extension headers, fragments are not part of this table.
@@ -163,6 +172,12 @@ fn valid(c: &Cell) -> bool {
             }
         }
     }
+    if (c.routes != RouteCfg::DefaultForeign || c.any_ip) && (c.layout != Layout::Same2 || !c.primed || c.prefix != Prefix::NoPrefix || c.auto_first.is_some()) {
+        return false;
+    }
+    if c.routes != RouteCfg::DefaultForeign && smoltcp::config::IFACE_MAX_ROUTE_COUNT < 2 {
+        return false;
+    }
     // the second subnet's broadcast address only exists where the second subnet is configured
     if (c.dst == Dst::Subnet2Bcast || c.src == Src::Bcast2) && c.layout != Layout::TwoSubnets {
         return false;
@@ -249,6 +264,10 @@ struct Plan {
     x_primed: Vec<bool>,
     x_lowpan: bool,
     x_d2: bool,
+    /// non-default routing tables / AnyIP: only unicast destination classes (quick tier)
+    r_unicast_dst_only: bool,
+    /// quick tier: on 802.15.4 only the first frames teach / syn-to-own / handshake
+    lowpan_d2_reduced: bool,
 }
 
 fn plan(tier: Tier) -> Plan {
@@ -260,7 +279,7 @@ fn plan(tier: Tier) -> Plan {
             prefixes: vec![Prefix::Teach, Prefix::SynOwn, Prefix::SynBcast, Prefix::SynBcastQueued, Prefix::UdpOwn, Prefix::Handshake],
             d2_socks: vec![Sock::Std],
             d2_joined: vec![true],
-            cold_socks: vec![Sock::NoSock, Sock::Std],
+            cold_socks: vec![Sock::Std],
             auto_d2: false,
             // source port 0 ("for completeness") only in the thorough tier
             ports: vec![Port::Match, Port::NoMatch, Port::DstZero],
@@ -270,6 +289,8 @@ fn plan(tier: Tier) -> Plan {
             x_primed: vec![true],
             x_lowpan: false,
             x_d2: false,
+            r_unicast_dst_only: true,
+            lowpan_d2_reduced: true,
         },
         Tier::Thorough => Plan {
             socks: Sock::ALL.to_vec(),
@@ -287,6 +308,8 @@ fn plan(tier: Tier) -> Plan {
             x_primed: vec![true, false],
             x_lowpan: true,
             x_d2: true,
+            r_unicast_dst_only: false,
+            lowpan_d2_reduced: false,
         },
     }
 }
@@ -294,19 +317,35 @@ fn plan(tier: Tier) -> Plan {
 /// all cells of one base configuration (everything but the packet coordinates fixed)
 #[allow(clippy::too_many_arguments)]
 fn push_cells(v: &mut Vec<Cell>, p: &Plan, prefix: Prefix, med: Med, ver: Ver, layout: Layout, primed: bool, sock: Sock, joined: bool) {
+    push_cells_routed(v, p, prefix, med, ver, layout, RouteCfg::DefaultForeign, false, false, primed, sock, joined)
+}
+
+/// `unicast_dst_only`: only the destination classes the routing table can matter for (own,
+/// foreign unicast, loopback) and only matching / not matching ports (quick tier)
+#[allow(clippy::too_many_arguments)]
+fn push_cells_routed(v: &mut Vec<Cell>, p: &Plan, prefix: Prefix, med: Med, ver: Ver, layout: Layout, routes: RouteCfg, any_ip: bool, unicast_dst_only: bool, primed: bool, sock: Sock, joined: bool) {
     for &kind in Kind::ALL {
         for &ll in ll_alphabet(med) {
             for &dst in Dst::ALL {
+                if unicast_dst_only && !(dst.is_foreign_unicast() || matches!(dst, Dst::Own | Dst::Own2 | Dst::Loopback)) {
+                    continue;
+                }
                 // (depth >= 2 always: the membership only matters for group-g)
                 if (p.unjoined_only_for_group_g || prefix != Prefix::NoPrefix) && !joined && dst != Dst::GroupG {
                     continue;
                 }
                 for &src in Src::ALL {
+                    if unicast_dst_only && !matches!(src, Src::OnLink | Src::OffLink | Src::Own | Src::Unspec) {
+                        continue;
+                    }
                     for &port in &p.ports {
                         if p.tcp_port0_only_syn && port == Port::DstZero && kind.is_tcp() && kind != Kind::TcpSyn {
                             continue;
                         }
-                        let c = Cell { med, ver, kind, ll, dst, src, port, sock, joined, primed, prefix, auto_first: None, layout };
+                        if unicast_dst_only && !matches!(port, Port::Match | Port::NoMatch) {
+                            continue;
+                        }
+                        let c = Cell { med, ver, kind, ll, dst, src, port, sock, joined, primed, prefix, auto_first: None, layout, routes, any_ip };
                         if valid(&c) {
                             v.push(c);
                         }
@@ -330,6 +369,9 @@ fn enumerate(p: &Plan) -> Vec<Cell> {
                     for &sock in socks {
                         if !primed && !p.cold_socks.contains(&sock) {
                             continue;
+                        }
+                        if p.lowpan_d2_reduced && med == Med::Lowpan && matches!(prefix, Prefix::SynBcast | Prefix::SynBcastQueued | Prefix::UdpOwn) {
+                            continue; // quick tier: these first frames exercise IP-layer code shared with Ethernet
                         }
                         for &joined in joineds {
                             push_cells(&mut v, p, prefix, med, ver, Layout::Same2, primed, sock, joined);
@@ -357,6 +399,24 @@ fn enumerate(p: &Plan) -> Vec<Cell> {
                             }
                             push_cells(&mut v, p, prefix, med, ver, layout, primed, sock, true);
                         }
+                    }
+                }
+            }
+        }
+    }
+    // the other routing table configurations x AnyIP (default address table, depth 1, primed)
+    for &routes in RouteCfg::ALL {
+        for any_ip in [false, true] {
+            if routes == RouteCfg::DefaultForeign && !any_ip {
+                continue; // = the full table above
+            }
+            for &med in &[Med::Ip, Med::Eth, Med::Lowpan] {
+                if med == Med::Lowpan && !p.x_lowpan {
+                    continue;
+                }
+                for &ver in Ver::ALL {
+                    for &sock in &p.x_socks {
+                        push_cells_routed(&mut v, p, Prefix::NoPrefix, med, ver, Layout::Same2, routes, any_ip, p.r_unicast_dst_only, true, sock, true);
                     }
                 }
             }
@@ -539,7 +599,7 @@ fn execute_strict(c: &Cell) -> Exec {
 }
 
 fn execute_opt(c: &Cell, want_state_fp: bool, strict: bool) -> Exec {
-    let mut w = World::new(c.med, c.ver, c.layout, c.sock, c.joined, c.primed, strict);
+    let mut w = World::new_routed(c.med, c.ver, c.layout, c.routes, c.any_ip, c.sock, c.joined, c.primed, strict);
     let mut ack = DEFAULT_ACK;
     let mut prefix_hex = None;
     let mut prefix_outs = vec![];
@@ -679,6 +739,23 @@ fn judge(c: &Cell, e: &Exec) -> Verdict {
         Kind::Arp => matches!(c.dst, Dst::OtherOnLink | Dst::OffLink),
         _ => c.dst.is_always_foreign() || (c.dst == Dst::GroupG && !c.joined),
     };
+    // AnyIP on: the user declared addresses other than the configured ones to be "received
+    // locally" (documented: those routed via one of our own addresses; this tree's
+    // `has_ip_addr()` then answers true for EVERY address). The statement does not define AnyIP:
+    // foreign UNICAST destinations (and ARP targets) are not judged by R1 while it is on, only
+    // recorded, split by whether the documented rule (live route via an own address) covers them.
+    let any_ip_exempt = c.any_ip && ip_foreign && (c.dst.is_foreign_unicast() || c.kind == Kind::Arp);
+    if any_ip_exempt && ll_trigger.is_none() {
+        let documented = routed_via_own(c.routes, c.dst);
+        let accepted = !v.delivered.is_empty() || !replies.is_empty();
+        v.notes.push(match (documented, accepted) {
+            (true, true) => "any_ip_on_foreign_unicast_routed_via_own_address_accepted(documented)",
+            (true, false) => "any_ip_on_foreign_unicast_routed_via_own_address_silent",
+            (false, true) => "any_ip_on_foreign_unicast_NOT_routed_via_own_address_accepted(beyond the documented rule, not judged)",
+            (false, false) => "any_ip_on_foreign_unicast_NOT_routed_via_own_address_silent",
+        });
+    }
+    let ip_foreign = ip_foreign && !any_ip_exempt;
     let trigger = ll_trigger.or(if ip_foreign { Some("foreign-ip") } else { None });
     if let Some(t) = trigger {
         v.relevant[R1] = true;
@@ -840,7 +917,14 @@ fn judge(c: &Cell, e: &Exec) -> Verdict {
     }
 
     // ---- R5 ----
-    if c.kind.is_tcp() && (c.dst.is_bcast_mcast() || c.dst == Dst::Loopback) && c.sock != Sock::NoSock {
+    // AnyIP on + loopback destination: with AnyIP every unicast address counts as an address of
+    // the interface in this tree (and the stack deliberately serves a loopback address that IS an
+    // address of the interface); the statement does not define AnyIP: recorded, not judged.
+    let r5_any_ip_exempt = c.any_ip && c.dst == Dst::Loopback;
+    if r5_any_ip_exempt && c.kind.is_tcp() && v.delivered.contains(&"tcp") {
+        v.notes.push("any_ip_on_tcp_to_loopback_changed_the_socket(not judged)");
+    }
+    if c.kind.is_tcp() && (c.dst.is_bcast_mcast() || c.dst == Dst::Loopback) && c.sock != Sock::NoSock && !r5_any_ip_exempt {
         v.relevant[R5] = true;
         if v.delivered.contains(&"tcp") {
             let st = |t: &Option<TcpSnap>| t.as_ref().map(|t| t.state.clone()).unwrap_or_default();
@@ -949,6 +1033,7 @@ struct Agg {
     outcome_by_kind: BTreeMap<String, BTreeMap<String, u64>>,
     per_med: BTreeMap<String, u64>,
     per_layout: BTreeMap<String, u64>,
+    per_routes: BTreeMap<String, u64>,
     per_depth: BTreeMap<String, u64>,
     delivered_per_socket: BTreeMap<String, u64>,
     notes: BTreeMap<String, u64>,
@@ -992,6 +1077,7 @@ impl Agg {
             outcome_by_kind: BTreeMap::new(),
             per_med: BTreeMap::new(),
             per_layout: BTreeMap::new(),
+            per_routes: BTreeMap::new(),
             per_depth: BTreeMap::new(),
             delivered_per_socket: BTreeMap::new(),
             notes: BTreeMap::new(),
@@ -1039,6 +1125,7 @@ impl Agg {
         *self.outcome_by_kind.entry(c.kind.name().to_string()).or_default().entry(v.outcome.clone()).or_insert(0) += 1;
         *self.per_med.entry(format!("{}/{}", c.med.name(), c.ver.name())).or_insert(0) += 1;
         *self.per_layout.entry(format!("{} {}", c.ver.name(), c.layout.name())).or_insert(0) += 1;
+        *self.per_routes.entry(format!("{} any_ip={}", c.routes.name(), c.any_ip)).or_insert(0) += 1;
         let depth = if c.auto_first.is_some() { "first-frame=auto(every state-changing cell, merged by state fingerprint)".to_string() } else { format!("first-frame={}", c.prefix.name()) };
         *self.per_depth.entry(depth).or_insert(0) += 1;
         if !v.delivered.is_empty() {
@@ -1098,7 +1185,7 @@ fn auto_depth2(rep: &mut Report, agg: &mut Agg) -> Value {
                     for &dst in Dst::ALL {
                         for &src in Src::ALL {
                             for &port in &[Port::Match, Port::NoMatch, Port::DstZero] {
-                                let c = Cell { med, ver, kind, ll, dst, src, port, sock: Sock::Std, joined, primed: true, prefix: Prefix::NoPrefix, auto_first: None, layout: Layout::Same2 };
+                                let c = Cell { med, ver, kind, ll, dst, src, port, sock: Sock::Std, joined, primed: true, prefix: Prefix::NoPrefix, auto_first: None, layout: Layout::Same2, routes: RouteCfg::DefaultForeign, any_ip: false };
                                 if valid(&c) {
                                     base.push(c);
                                 }
@@ -1177,12 +1264,20 @@ pub fn run(tier: Tier) -> i32 {
             "tcp_dst_port_0_only_with_syn": p.tcp_port0_only_syn,
             "neighbor_cache": ["primed(peer+gateway)", "cold (ethernet/802.15.4 only)"],
             "socket_configuration_on_cold_base": p.cold_socks.iter().map(|x| x.name()).collect::<Vec<_>>(),
+            "depth2_on_ieee802154_only_teach/syn-to-own/handshake": p.lowpan_d2_reduced,
             "depth2_first_frames": p.prefixes.iter().map(|x| x.name()).collect::<Vec<_>>(),
             "socket_configuration_depth2": p.d2_socks.iter().map(|x| x.name()).collect::<Vec<_>>(),
             "group_g_joined_depth2": p.d2_joined,
             "group_g_not_joined_at_depth2_only_for_dst_group_g": true,
             "generic_depth2_ports": ["matching", "not-matching", "dst-port-0"],
             "generic_depth2": p.auto_d2,
+            "routing_table": RouteCfg::ALL.iter().map(|x| x.name()).collect::<Vec<_>>(),
+            "any_ip": [false, true],
+            "non_default_routing_or_any_ip": {
+                "sockets": p.x_socks.iter().map(|x| x.name()).collect::<Vec<_>>(), "ieee802154": p.x_lowpan, "neighbors_primed": [true], "depth": 1,
+                "only_unicast_destination_classes,_sources_onlink/offlink/own/unspecified,_ports_matching/not-matching": p.r_unicast_dst_only,
+                "note": "AnyIP off: every routing table must leave foreign unicast destinations undelivered and unanswered (R1). AnyIP on: foreign unicast destinations are not judged (recorded under observations.any_ip_*)",
+            },
             "address_table_layout": Layout::ALL.iter().map(|x| x.name()).collect::<Vec<_>>(),
             "non_default_layouts": {
                 "sockets": p.x_socks.iter().map(|x| x.name()).collect::<Vec<_>>(), "neighbors_primed": p.x_primed, "ieee802154": p.x_lowpan,
@@ -1248,6 +1343,7 @@ pub fn run(tier: Tier) -> i32 {
     rep.cov("cells_executed", json!(agg.cells));
     rep.cov("cells_per_medium_version", json!(agg.per_med));
     rep.cov("cells_per_address_table_layout", json!(agg.per_layout));
+    rep.cov("cells_per_routing_table_and_any_ip", json!(agg.per_routes));
     rep.cov("cells_per_first_frame", json!(agg.per_depth));
     rep.cov("cells_per_outcome_class", json!({"delivered_to_some_socket": agg.class_counts[0], "some_frame_emitted": agg.class_counts[1], "silent": agg.class_counts[2]}));
     rep.cov("cells_per_outcome", json!(agg.outcomes));
